@@ -24,7 +24,11 @@ def build_cases(ctx, nested=0.0, nschema=None, per=None, big=False, gen_kw=None,
         tabs, uns = vtree.random_schema(r, nested)
         for _ in range(per):
             g = vtree.Gen(r, tabs, uns, maxdepth=r.choice(depths), big=big and r.random() < 0.1, **(gen_kw or {}))
-            if r.random() < 0.1:
+            # offset / union vectors of 20..130 elements: the builder's data stack has to grow while the vector (or an element) is open;
+            # such cases are built on a FRESH builder, whose stacks still have their initial sizes
+            fresh = r.random() < 0.15
+            if fresh: g.long_vectors = 0.35
+            if not fresh and r.random() < 0.1:
                 al = r.choice([1, 2, 4, 8, 16, 32]); size = al * r.randint(1, 3)
                 tree = vtree.Node("u", align=al, data=vtree.rbytes(r, size)); root = ("st", size, al)
             else:
@@ -39,7 +43,7 @@ def build_cases(ctx, nested=0.0, nschema=None, per=None, big=False, gen_kw=None,
             # children of the root table created before the top-level buffer is started (allowed at the top level only:
             # nothing that is or contains a nested buffer; creation order is the same as in the create style, so back references keep their numbers)
             if root[0] == "t" and not (set(toks.split(" ")) & {"B", "E"}) and r.random() < 0.25: flags |= 8
-            cases.append(dict(tables=tabs, unions=uns, root=root, tree=tree, flags=flags, ident=ident, ba=ba, toks=toks, si=si))
+            cases.append(dict(tables=tabs, unions=uns, root=root, tree=tree, flags=flags, ident=ident, ba=ba, toks=toks, si=si, fresh=fresh))
     return cases
 
 
@@ -56,7 +60,7 @@ def run_builds(ctx, h_build, cases, styles=(0, 1, 2)):
         lines = ["fresh 1"]
         for ci in range(s, min(len(cases), s + B)):
             for st in styles:
-                lines.append("reset 0"); lines.append(build_line(cases[ci], st)); index.append((ci, st))
+                lines.append("fresh 1" if cases[ci].get("fresh") else "reset 0"); lines.append(build_line(cases[ci], st)); index.append((ci, st))
         blocks.append(lines)
     rc, out, err = run_blocks(h_build, blocks, 16, sticky="fresh ")
     flat = [l for b in blocks for l in b]
